@@ -38,7 +38,10 @@ type c04Case struct {
 	Outbound int `json:"outbound,omitempty"`
 	// End: "" the peer waits for the marker; "eof" / "eofWithData": right after its last packet the peer finishes sending
 	// (half-close; the client can still write its acknowledgements), the io.EOF arriving after resp. together with the last bytes
-	End   string    `json:"end,omitempty"`
+	End string `json:"end,omitempty"`
+	// Glued > 0 (handler on/off only): the first Glued packets are in the same buffer as the CONNACK (a resumed session's
+	// pending messages in one TCP segment), so the reader may reach them before Connect has returned
+	Glued int       `json:"glued,omitempty"`
 	Steps []c04Step `json:"steps"`
 }
 
@@ -116,6 +119,9 @@ func c04Gen(rt *rapid.T) c04Case {
 	}
 	c.Steps = c04GenSteps(rt, 40)
 	c.End = rapid.SampledFrom([]string{"", "", "eof", "eofWithData"}).Draw(rt, "end")
+	if rapid.IntRange(0, 3).Draw(rt, "glued") == 0 {
+		c.Glued = rapid.IntRange(1, 4).Draw(rt, "gluedN")
+	}
 	if c.Handler == "half" {
 		c.HalfAt = rapid.IntRange(0, len(c.Steps)).Draw(rt, "halfAt")
 	}
@@ -276,7 +282,35 @@ func c04Drive(tb rapid.TB, r *baseRig, c c04Case) ([]vEvent, bool) {
 	if c.Handler == "on" {
 		r.cli.Handle(h)
 	}
+	glued := 0
+	if c.Glued > 0 && c.Handler != "half" {
+		glued = c.Glued
+		if glued > len(c.Steps) {
+			glued = len(c.Steps)
+		}
+		r.peer.mu.Lock()
+		r.peer.auto = func(p *bpeer, pk refPacket) {
+			if pk.Type != rtConnect {
+				bpeerDefaultAuto(p, pk)
+				return
+			}
+			buf := refEncode(refPacket{Type: rtConnAck})
+			p.log.add(p.conn.id, "B", &refPacket{Type: rtConnAck}, "")
+			for i := 0; i < glued; i++ {
+				pk := c.Steps[i].packet()
+				p.log.add(p.conn.id, "B", &pk, "in the CONNACK's buffer")
+				buf = append(buf, refEncode(pk)...)
+			}
+			p.conn.peerSend(buf)
+		}
+		r.peer.mu.Unlock()
+	}
 	r.connect(tb)
+	if glued > 0 {
+		r.peer.mu.Lock()
+		r.peer.auto = nil
+		r.peer.mu.Unlock()
+	}
 	r.conn.mu.Lock()
 	r.conn.maxRead = c.MaxRead
 	r.conn.mu.Unlock()
@@ -299,6 +333,9 @@ func c04Drive(tb rapid.TB, r *baseRig, c c04Case) ([]vEvent, bool) {
 		defer func() { <-outDone }()
 	}
 	for i, s := range c.Steps {
+		if i < glued {
+			continue // already sent, behind the CONNACK
+		}
 		if c.Handler == "half" && i == c.HalfAt {
 			if !r.peer.sync(20 * time.Second) {
 				return nil, false
